@@ -125,6 +125,15 @@ pub fn run(ctx: &mut Ctx) {
             let t = TextC::from(d);
             ensure_eq!(t.to_bits(), letter, "text_from_dna", "text::Dna::from(Dna::{})", letter as char);
         }
+        // text base -> 2-bit base: a fallible decoder of the same alphabet, over all 256 byte values
+        for b in 0..=255u8 {
+            let t = TextC::try_from_bits(b).ok_or_else(|| Fail { site: "text_bits".into(), msg: format!("text::Dna::try_from_bits({b:#04x}) refused") })?;
+            let r = DnaC::try_from(t);
+            match b {
+                b'A' | b'C' | b'G' | b'T' => ensure!(matches!(r, Ok(d) if d.to_char() == b as char), "text_to_dna", "dna::Dna::try_from(text::Dna({:?})) = {r:?}", b as char),
+                _ => ensure!(r.is_err(), "text_to_dna_accepts_other", "dna::Dna::try_from(text::Dna({b:#04x})) = {r:?} but only A, C, G, T are DNA bases"),
+            }
+        }
         // the compile-time literal macros carry their own copies of the tables
         let lit = iupac!("ACGTRYSWKMBDHVN-");
         for (i, ch) in "ACGTRYSWKMBDHVN-".bytes().enumerate() {
